@@ -446,6 +446,22 @@ pub fn judge(p: &Plan, http: &HttpPlan, o: &HttpOutcome) -> Judged {
                 j.v.push(Violation::new("forwarded_unparsed_request", format!("trigger=other|mut={label}"), format!("backend conn {} received a request without sozu's own header lines (Sozu-Id / X-Forwarded-*): sozu never parsed it as a request. At offset {pos}: {:?}", rec.idx, show(&rec.raw_in[pos..]))));
             } else {
                 let at = match &rb.stop { Stop::Reject { at, .. } => *at, Stop::Incomplete { at } => *at, _ => pos };
+                // a partial head that is, to its last byte, the client's own bytes behind the previous forwarded request: the
+                // plan-level trigger is the mutation of that previous request (sozu may have passed the bytes through without
+                // parsing them - the recorded `forwarded_unparsed_request` family - and was cut when the response completed),
+                // not the mutation of the request whose head happens to be cut
+                let mut label = label;
+                if bad_what == "partial_head" && !triggers.get(owner.unwrap_or(usize::MAX)).map_or(false, |t| t.is_some()) {
+                    if let (Some(prev), Some(ci)) = (prev, owner) {
+                        if decorated(prev) && prev.end == pos {
+                            if let Some((he, _)) = prev.id.and_then(|id| head_end_of_element(&http.clients[ci], id)) {
+                                let rest = &rec.raw_in[prev.head_end..];
+                                let cl = &streams[ci][he.min(streams[ci].len())..];
+                                if rest.len() <= cl.len() && rest == &cl[..rest.len()] { label = label_of(p, http, ci, prev.id); }
+                            }
+                        }
+                    }
+                }
                 j.v.push(Violation::new("backend_stream_not_strict", format!("{}|mut={label}", bad_what.trim_start_matches("reject:")), format!("backend conn {} (mutation {label}): strict reader stops at offset {at} ({bad_what}); request starts {:?}; at the stop: {:?}", rec.idx, show(&rec.raw_in[pos..]), show(&rec.raw_in[at.min(rec.raw_in.len())..]))));
             }
             continue;
